@@ -3,6 +3,7 @@
   Property-level statements; proofs are in Emitter/Lemmas/Security.lean.
 -/
 import Emitter.Lemmas.Security
+import Emitter.Props.Tie.Key
 namespace Emitter.C03
 open Emitter Emitter.Security Emitter.Spec
 
